@@ -40,7 +40,7 @@ type Case struct {
 }
 
 func gen(t *rapid.T) Case {
-	o := lib.RepoGenOpts{}
+	o := lib.RepoGenOpts{SubOuts: true}
 	r := lib.GenRepo(t, o)
 	c := Case{States: []*lib.Repo{r}, Descs: []string{"initial"}, Compress: rapid.Bool().Draw(t, "compress")}
 	n := rapid.IntRange(1, 3).Draw(t, "nstates")
@@ -163,5 +163,5 @@ func run(c Case, o *lib.Obs) error {
 }
 
 func TestC02(t *testing.T) {
-	lib.Check(t, spec, lib.Scale(12, 400), gen, run)
+	lib.Check(t, spec, lib.Scale(16, 400), gen, run)
 }
